@@ -120,7 +120,7 @@ def run(ctx):
         "input_distribution": stats,
         "traces_validated_against_impl": (len(cases) - len(bad_model)) if evaluated else 0,
         "exhaustive": False,
-        "samples": [view(c) for c in (cases[3:4] + cases[-1:])],
+        "samples": [view(c) for c in (cases[:1] + cases[-1:])],
         "model_mismatches": len(bad_model), "monitor_failures_strict": len(bad_strict),
         "monitor_failures_nonzero_reading": len(bad_nz), "monitor_failures_environment": len(bad_env),
         "extends_twin_failures": len(bad_ext),
@@ -144,7 +144,7 @@ def strip(c):
 def view(c):
     v = dict(c)
     s = json.dumps(v)
-    if len(s) > 20000:
+    if len(s) > 5000:
         v = {"kind": c["kind"], "load": c["load"], "note": "large case: see 'cases' for the full input",
              "obs_err": c.get("obs_err"), "val_err": c.get("val_err")}
     return v
